@@ -48,6 +48,22 @@ func vfsTargetAsFile() {
 	}
 }
 
+// vfsMakeLink: the directory T/rel (with everything beneath it) moves to a store outside the target and T/rel
+// becomes a symbolic link to it.
+func vfsMakeLink(rel []string) {
+	p := filepath.Join(append([]string{vfsTarget()}, rel...)...)
+	store := filepath.Join(vfsJail, "linkstore")
+	os.MkdirAll(store, 0o755)
+	vfsSeq++
+	dst := filepath.Join(store, fmt.Sprintf("d%d", vfsSeq))
+	if err := os.Rename(p, dst); err != nil {
+		panic(err)
+	}
+	if err := os.Symlink(dst, p); err != nil {
+		panic(err)
+	}
+}
+
 func vfsRemoveTarget() { os.RemoveAll(vfsTarget()) }
 
 func vfsAdd(rel []string, kind int) {
